@@ -667,7 +667,11 @@ func (e *AnimEncoder) addOptimizedFrame(img image.Image, duration time.Duration)
 
 	// Ensure canvas dimensions match. If the image is smaller than the canvas,
 	// place it at (0,0) on a full-canvas NRGBA.
-	if currCanvas.Bounds().Dx() != e.width || currCanvas.Bounds().Dy() != e.height {
+	// The same copy normalises a picture that is a view into a larger buffer
+	// (non-zero origin or padded stride): the code below indexes Pix assuming
+	// origin (0,0) and a tight stride.
+	if currCanvas.Bounds().Dx() != e.width || currCanvas.Bounds().Dy() != e.height ||
+		currCanvas.Rect.Min != (image.Point{}) || currCanvas.Stride != e.width*4 {
 		full := image.NewNRGBA(image.Rect(0, 0, e.width, e.height))
 		copyImageRect(full, currCanvas, 0, 0)
 		currCanvas = full
